@@ -55,6 +55,9 @@ pub enum ObsOp {
     SubCloneReset(u8),
     /// `dst.clone_from(&src)` between two live subscribers of the same observable
     SubCloneFrom { dst: u8, src: u8 },
+    /// a subscriber of a second, unrelated observable is overwritten with `clone_from(&src)`: from
+    /// then on it is one more subscriber of ours, with src's observed state
+    ForeignSubCloneFrom(u8),
     SubReset(u8),
     SubGet(u8),
     SubRead { sub: u8, hold: bool },
@@ -752,6 +755,26 @@ impl<F: Flavor> W<F> {
                 self.rep.classes.push("subscriber_clone_from");
                 Ok(())
             }
+            ObsOp::ForeignSubCloneFrom(src) => {
+                let Some(sr) = pick(src, &self.live_subs()) else { return Ok(()) };
+                if self.live_subs().len() >= 5 || wheld {
+                    return Ok(());
+                }
+                if self.other.is_empty() {
+                    self.other.push(F::new_shared(OVal::new(9, 9)));
+                }
+                let Some(mut foreign) = F::s_subscribe(&self.other[0]) else { return self.stuck("subscribe on the second observable") };
+                Clone::clone_from(&mut foreign, &**self.subs[sr].as_ref().unwrap());
+                let (unseen, since) = {
+                    let m = self.msubs[sr].as_ref().unwrap();
+                    (m.unseen, m.updates_since)
+                };
+                self.new_sub(foreign, unseen);
+                self.msubs.last_mut().unwrap().as_mut().unwrap().updates_since = since;
+                self.f.sub_clones += 1;
+                self.rep.classes.push("foreign_subscriber_clone_from");
+                Ok(())
+            }
             ObsOp::SubReset(sub) => {
                 let Some(si) = pick(sub, &self.live_subs()) else { return Ok(()) };
                 if self.sub_has_guard(si) {
@@ -1186,6 +1209,7 @@ pub fn op(g: &ObsGen) -> BoxedStrategy<ObsOp> {
             2 => ix().prop_map(ObsOp::SubClone),
             1 => ix().prop_map(ObsOp::SubCloneReset),
             1 => (ix(), ix()).prop_map(|(dst, src)| ObsOp::SubCloneFrom { dst, src }),
+            1 => ix().prop_map(ObsOp::ForeignSubCloneFrom),
             1 => ix().prop_map(ObsOp::SubReset),
             2 => ix().prop_map(ObsOp::SubGet),
             1 => (ix(), any::<bool>()).prop_map(|(sub, hold)| ObsOp::SubRead { sub, hold }),
